@@ -24,6 +24,9 @@ struct HookLog {
     conns: Vec<Vec<String>>,
     // peer port -> connection index
     by_port: Vec<(u16, usize)>,
+    // descriptor of the stream handed to the server -> connection index (latest entry wins: a descriptor number is reused only
+    // after its connection is gone).  getpeername fails on a connection the peer has already reset, the descriptor does not.
+    by_fd: Vec<(i32, usize)>,
 }
 
 fn free_port() -> u16 {
@@ -62,10 +65,13 @@ fn run_mode(mode: &str, port: u16, conns: &[(bool, Vec<String>)], keep: &[bool],
                     if burst && i == 0 { std::thread::sleep(Duration::from_millis(5)); }
                     if !decisions.get(i).copied().unwrap_or(true) { return ConnectionSetupAction::Drop; }
                     if wshut.get(i).copied().unwrap_or(false) { let _ = stream.shutdown(std::net::Shutdown::Write); }
-                    if clones.get(i).copied().unwrap_or(false) {
+                    use std::os::unix::io::AsRawFd;
+                    let out = if clones.get(i).copied().unwrap_or(false) {
                         // hand back a different TcpStream object (another descriptor) for the same connection
-                        match stream.try_clone() { Ok(c) => { drop(stream); ConnectionSetupAction::Proceed(c) } Err(_) => ConnectionSetupAction::Proceed(stream) }
-                    } else { ConnectionSetupAction::Proceed(stream) }
+                        match stream.try_clone() { Ok(c) => { drop(stream); c } Err(_) => stream }
+                    } else { stream };
+                    log.lock().unwrap().by_fd.push((out.as_raw_fd(), i));
+                    ConnectionSetupAction::Proceed(out)
                 }
                 Err(_) => ConnectionSetupAction::Drop,
             }
@@ -76,8 +82,11 @@ fn run_mode(mode: &str, port: u16, conns: &[(bool, Vec<String>)], keep: &[bool],
         b.pre_routing_hook(move |req, res| {
             let port = res.get_stream().peer_addr().map(|a| a.port()).unwrap_or(0);
             {
+                use std::os::unix::io::AsRawFd;
+                let fd = res.get_stream().as_raw_fd();
                 let mut l = log.lock().unwrap();
-                if let Some(i) = l.by_port.iter().find(|(p, _)| *p == port).map(|(_, i)| *i) { l.conns[i].push("P".into()); }
+                let idx = l.by_fd.iter().rev().find(|(f, _)| *f == fd).map(|(_, i)| *i).or_else(|| l.by_port.iter().find(|(p, _)| *p == port).map(|(_, i)| *i));
+                if let Some(i) = idx { l.conns[i].push("P".into()); }
             }
             match req.headers.get("x-hook") {
                 Some(b"answer") => { let _ = res.ok(&Headers::new_nodate(), b"hook"); PreRoutingAction::Drop }
@@ -91,8 +100,11 @@ fn run_mode(mode: &str, port: u16, conns: &[(bool, Vec<String>)], keep: &[bool],
         b.connection_teardown_hook(move |stream, result| {
             let port = stream.peer_addr().map(|a| a.port()).unwrap_or(0);
             {
+                use std::os::unix::io::AsRawFd;
+                let fd = stream.as_raw_fd();
                 let mut l = log.lock().unwrap();
-                if let Some(i) = l.by_port.iter().find(|(p, _)| *p == port).map(|(_, i)| *i) {
+                let idx = l.by_fd.iter().rev().find(|(f, _)| *f == fd).map(|(_, i)| *i).or_else(|| l.by_port.iter().find(|(p, _)| *p == port).map(|(_, i)| *i));
+                if let Some(i) = idx {
                     l.conns[i].push(format!("T({})", if result.is_ok() { "ok" } else { "err" }));
                 } else {
                     l.conns.push(vec![format!("T?({})", if result.is_ok() { "ok" } else { "err" })]);
